@@ -805,7 +805,11 @@ func c07WSCancel(tier string, seed int64, idx int, c c07Case, res *core.Result) 
 func c02HTTPSlowReceiver(tier string, seed int64, idx, j int, res *core.Result) {
 	burst := 5 + j%4
 	kind := []string{"server", "bidi"}[j%2]
-	res.Sample = map[string]any{"family": "http-slow-receiver", "kind": kind, "burst": burst, "one_message_of_5MiB": j%2 == 1 && j%4 != 3, "http_response_lost_after_delivery": j%4 == 3}
+	// every fourth case is a long download instead: the caller receives promptly, the handler sends a
+	// message every 3 s of the transport's clock, and the whole takes longer than the transport's
+	// idle timeout (10 s, cleaner every second): a connection that only receives is in use, not idle
+	long := j%4 == 2
+	res.Sample = map[string]any{"family": "http-slow-receiver", "kind": kind, "burst": burst, "one_message_of_5MiB": j%2 == 1 && j%4 != 3, "http_response_lost_after_delivery": j%4 == 3, "long_download_across_idle_timeout": long}
 	res.Retire, res.NonTrivial, res.Evals = true, true, 1
 	setGMP([]int{4, 16}[j%2])
 	ctx, cancel := context.WithTimeout(context.Background(), 90*time.Second)
@@ -819,8 +823,12 @@ func c02HTTPSlowReceiver(tier string, seed int64, idx, j int, res *core.Result) 
 	impl := svc.NewImpl()
 	srv := goat.NewServer(srvAddr)
 	srv.RegisterService(&svc.Desc, impl)
-	gS := goat.NewGoatOverHttp(func(id string, rw goat.RpcReadWriter) { go srv.Serve(ctx, rw) }, ident, goat.WithClock(fc))
-	gC := goat.NewGoatOverHttp(func(id string, rw goat.RpcReadWriter) {}, ident, goat.WithClock(fc))
+	hopts := []goat.GoatOverHttpOption{goat.WithClock(fc)}
+	if long {
+		hopts = append(hopts, goat.WithConnectionTimeout(10*time.Second), goat.WithConnectionCleanupInterval(time.Second))
+	}
+	gS := goat.NewGoatOverHttp(func(id string, rw goat.RpcReadWriter) { go srv.Serve(ctx, rw) }, ident, hopts...)
+	gC := goat.NewGoatOverHttp(func(id string, rw goat.RpcReadWriter) {}, ident, hopts...)
 	// every fourth case: the HTTP response of the third POST towards the caller is lost after the
 	// envelope was handed over (the connection breaks before the answer): nothing may arrive twice
 	lossy := j%4 == 3
@@ -845,6 +853,8 @@ func c02HTTPSlowReceiver(tier string, seed int64, idx, j int, res *core.Result) 
 	}()
 	var sendErr atomic.Value
 	handlerDone := make(chan struct{})
+	tick := make(chan struct{})
+	var gotN atomic.Int32
 	tag := fmt.Sprintf("hsr%d", idx)
 	big := j%2 == 1 && j%4 != 3 // one message of 5 MiB in the middle of the burst
 	msg := func(i int) []byte {
@@ -869,6 +879,13 @@ func c02HTTPSlowReceiver(tier string, seed int64, idx, j int, res *core.Result) 
 				sendErr.Store(err)
 				return err
 			}
+			if long {
+				select {
+				case <-tick: // the driver has moved the transport's clock on
+				case <-ss.Context().Done():
+					return ss.Context().Err()
+				}
+			}
 		}
 		return nil
 	})
@@ -892,10 +909,31 @@ func c02HTTPSlowReceiver(tier string, seed int64, idx, j int, res *core.Result) 
 			scancel()
 		}()
 	}
-	// the caller is busy elsewhere: the burst backs up into the transport, and time passes there
-	time.Sleep(500 * time.Millisecond)
-	fc.Advance(3 * time.Second)
-	time.Sleep(100 * time.Millisecond)
+	if !long {
+		// the caller is busy elsewhere: the burst backs up into the transport, and time passes there
+		time.Sleep(500 * time.Millisecond)
+		fc.Advance(3 * time.Second)
+		time.Sleep(100 * time.Millisecond)
+	} else {
+		go func() {
+			for i := 0; i < burst; i++ {
+				for k := 0; k < 3000 && int(gotN.Load()) <= i && ctx.Err() == nil; k++ {
+					time.Sleep(time.Millisecond)
+				}
+				for k := 0; k < 3; k++ { // 3 s of the transport's clock, a cleaner tick each second
+					fc.Advance(time.Second)
+					time.Sleep(15 * time.Millisecond)
+				}
+				select {
+				case tick <- struct{}{}:
+				case <-handlerDone:
+					return
+				case <-ctx.Done():
+					return
+				}
+			}
+		}()
+	}
 	var got []string
 	var end error
 	done := make(chan struct{})
@@ -908,12 +946,18 @@ func c02HTTPSlowReceiver(tier string, seed int64, idx, j int, res *core.Result) 
 				return
 			}
 			got = append(got, short(m))
+			gotN.Add(1)
 		}
 	}()
 	select {
 	case <-done:
 	case <-time.After(30 * time.Second):
 		res.Verdict, res.Note = core.Inconclusive, "receiver did not finish within 30 s (kernel I/O: no final-state argument)"
+		return
+	}
+	if long && (end != io.EOF || len(got) != burst) {
+		// nothing failed in this scenario but, possibly, the transport's idea of "idle"
+		res.Violate("stream-in-use-ended-by-idle-timeout/http-long-download", "over the HTTP transport a download of %d messages, one every 3 s of the transport's clock (idle timeout 10 s), received promptly: the caller got %d messages and then %v", burst, len(got), end)
 		return
 	}
 	select {
@@ -936,9 +980,16 @@ func c02HTTPSlowReceiver(tier string, seed int64, idx, j int, res *core.Result) 
 		}
 		return
 	}
-	if e := sendErr.Load(); e != nil {
+	if e := sendErr.Load(); e != nil && !long {
 		res.Verdict, res.Note = core.Inconclusive, fmt.Sprintf("a Send in the handler failed (not the scenario): %v", e)
 		return
+	}
+	if long {
+		// nothing failed in this scenario but, possibly, the transport's idea of "idle"
+		if e := sendErr.Load(); e != nil || end != io.EOF || len(got) != burst {
+			res.Violate("stream-in-use-ended-by-idle-timeout/http-long-download", "over the HTTP transport a download of %d messages, one every 3 s of the transport's clock (idle timeout 10 s), received promptly: the caller got %d messages and %v, the handler's Send error was %v", burst, len(got), end, e)
+			return
+		}
 	}
 	var want []string
 	for i := 0; i < burst; i++ {
@@ -950,6 +1001,9 @@ func c02HTTPSlowReceiver(tier string, seed int64, idx, j int, res *core.Result) 
 		res.Violate("successful-stream-reported-failed/http-slow-receiver", "over the HTTP transport the handler returned success but the caller observed %v", end)
 	} else {
 		res.Stat("http_slow_receiver_cases", 1)
+		if long {
+			res.Stat("http_long_download_cases", 1)
+		}
 	}
 }
 
